@@ -140,7 +140,7 @@ def analyse_text(h, mop, text: str, clauses):
             e = rm.expected_instruction(c[1], text_i)
             if e is not None:
                 cnt["simple_shape"] += 1
-                if "operands" in clauses and (r[1], r[2]) != (e[1], e[2]):
+                if "operands" in clauses and r[2] != e[2]:   # the mnemonic is C08's clause
                     problems.append(("operands", lines[i], e, r))
     return problems, cnt
 
